@@ -94,6 +94,10 @@ Lemma exec_clobber f m rho tr x r :
   exec (S f) m rho tr (SClobber x :: r) = exec f m (clobber rho (length tr) x) tr r.
 Proof. reflexivity. Qed.
 
+Lemma exec_zero f m rho tr x r :
+  exec (S f) m rho tr (SZero x :: r) = exec f m (zeroed rho x) tr r.
+Proof. reflexivity. Qed.
+
 Lemma exec_nil f m rho tr : exec (S f) m rho tr [] = Fell rho tr.
 Proof. reflexivity. Qed.
 
@@ -309,7 +313,7 @@ Proof.
   - cbn [exec] in He. congruence.
   - change (S f + d)%nat with (S (f + d)). destruct l as [ | s r].
     + exact He.
-    + destruct s as [k x e | k g args | k c a b | k pre c body step | k e | k e cases default | | x | w]; cbn [exec] in He |- *.
+    + destruct s as [k x e | k g args | k c a b | k pre c body step | k e | k e cases default | | x | x | w]; cbn [exec] in He |- *.
       * destruct (ceval rho m e); [ apply IH; assumption | exact He ].
       * destruct (evals rho m args); [ apply IH; assumption | exact He ].
       * destruct (ceval rho m c) as [v | ]; [ | exact He ].
@@ -346,6 +350,7 @@ Proof.
           try (rewrite (IH _ _ _ _ _ d E) by discriminate);
           [ apply IH; assumption | exact He | apply IH; assumption | exact He | congruence ].
       * exact He.
+      * apply IH; assumption.
       * apply IH; assumption.
       * exact He.
 Qed.
